@@ -73,12 +73,13 @@ type TypeSpec struct {
 	Invs    []*Clause
 	Where   string
 	GhostFields map[string]string // ghost field name -> Go type expression
+	UTF8    []string // string fields that must hold valid UTF-8 (serialised by encoding/json)
 	Pkg     *packages.Package
 }
 
 var clauseKeywords = map[string]bool{"property": true, "requires": true, "ensures": true, "modifies": true,
 	"panics": true, "loop": true, "invariant": true, "decreases": true, "trusted": true, "pure": true, "mode": true,
-	"nosafety": true, "order": true, "atcall": true, "assumes": true, "ghostfield": true, "holds": true, "nowrap": true, "exclusive": true, "inline": true, "forall": true, "guards": true, "lockinv": true, "ghost": true, "unroll": true}
+	"nosafety": true, "utf8": true, "order": true, "atcall": true, "assumes": true, "ghostfield": true, "holds": true, "nowrap": true, "exclusive": true, "inline": true, "forall": true, "guards": true, "lockinv": true, "ghost": true, "unroll": true}
 
 // rewriteImplies turns `A ==> B` (lowest precedence, right associative, split at
 // bracket depth 0) into `(!(A) || (B))`, recursively inside brackets too.
@@ -497,6 +498,16 @@ func (e *Engine) parseContractFile(p *packages.Package, f *ast.File, fname strin
 		case "decreases":
 			if curLoop != nil {
 				curLoop.Decr = e.parseClause(rest, where)
+			}
+		case "utf8":
+			// utf8 f, g: string fields serialised by encoding/json; json round-trips a Go
+			// string only if it is valid UTF-8, so every value stored there must be
+			if curType != nil {
+				for _, fn := range strings.Split(rest, ",") {
+					if fn = strings.TrimSpace(fn); fn != "" {
+						curType.UTF8 = append(curType.UTF8, fn)
+					}
+				}
 			}
 		case "ghostfield":
 			if curType != nil {
